@@ -52,9 +52,9 @@ def time_decorate(rng, xml, ns=None, pretty=False):
         if rng.random() < 0.7:
             e.set("units", rng.choice(["seconds", "ms"]))
         if rng.random() < (0.2 if own_cal else 0.6):
-            e.set("scale", rng.choice(["0.5", "2.0", "0.125"]))
+            e.set("scale", rng.choice(["0.5", "2.0", "0.125", "0", "0.0", "1", "1.0", "-4.0"]))
         if rng.random() < (0.2 if own_cal else 0.6):
-            e.set("offset", rng.choice(["0.25", "100.0", "-8.0"]))
+            e.set("offset", rng.choice(["0.25", "100.0", "-8.0", "0", "0.0", "1"]))
         e.append(enc)
         if rng.random() < 0.5:
             rt = ET.SubElement(new, q("ReferenceTime"))
